@@ -11,17 +11,22 @@
   analytic Jacobian is `A`.  Theorems hold for every dimension `D ≥ 1` unless a statement says D ∈ {2, 3}
   (`flow_derivatives` itself accepts D ∈ {2, 3} only).
 
-  DESIGN §5.0 I-3: for the padded schemes the null-space theorems are stated at the margin-2 interior
-  (second derivatives) resp. margin-1 points (first derivatives), for forward_central_backward at every
-  grid point and for the reduced loss; that the *reduced* default-mode (sobel) bending energy of an affine
-  field is NOT zero is proved as `C17_bending_default_affine_refuted` (finding F-17d, not repaired).
+  DESIGN §5.0 I-3 (C17 does not carve out boundary points).  After the repair of F-17d (replicate-padded
+  prewitt / sobel averaging) the DEFAULT mode of bending / curvature (sobel), prewitt and
+  forward_central_backward (the default of the gradient terms) are exact on affine fields at EVERY grid point:
+  the null-space and analytic-value theorems hold at every point and for the reduced loss
+  (`EverywhereMode`).  For the explicitly one-sided / central replicate-padded schemes (forward, backward,
+  central) they hold at the margin-2 resp. `ExactAt` points only; that they FAIL in the padded layer is proved
+  as `C17_bending_forward_affine_refuted` / `C17_grad_forward_affine_refuted` (findings F-17d', F-17d'', not
+  repaired; mode='gaussian', F-17i, is not modelled).
   The model follows /repo after the repairs of F-17a/b/c/e/f/g/h (fix commits 4eb1789, eb24e6a, a498630,
-  1259250, 363ef5e, aeea172): their clauses are proved in full (`C17_lame`, `C17_ic_units`,
-  `C17_ic_reductions`, `C17_elasticity_bspline`).
+  1259250, 363ef5e, aeea172) and F-17d (PENDING-F17D): their clauses are proved in full (`C17_lame`,
+  `C17_ic_units`, `C17_ic_reductions`, `C17_elasticity_bspline`, `C17_affine_zero_reduced`).
 
   OBLIGATIONS: C17_bending_affine_zero C17_curvature_affine_zero C17_affine_zero_reduced
-    C17_add_affine_invariant
-    C17_grad_terms_translation_zero C17_translation_zero_reduced C17_affine_values C17_affine_values_23
+    C17_bending_forward_affine_refuted C17_grad_forward_affine_refuted C17_add_affine_invariant
+    C17_grad_terms_translation_zero C17_translation_zero_reduced C17_affine_values C17_affine_values_everywhere
+    C17_affine_values_23
     C17_nonneg C17_quadratic_scaling C17_quadratic_scaling_fd C17_scaling_reduced C17_spacing_power C17_tv_scaling
     C17_linear_transform_zero C17_reductions
     C17_lame
@@ -50,67 +55,79 @@ variable {K : Type} [Field K] [CharZero K] {D : Nat}
 /-- all grid points of the box. -/
 def InBoxD (sz : Fin D → Nat) (idx : Idx D) : Prop := ∀ d, 0 ≤ idx d ∧ idx d < (sz d : Int)
 
+/-- the schemes that are exact on affine fields at EVERY grid point: forward_central_backward and —
+    since the repair of F-17d (replicate-padded averaging) — prewitt and sobel.  `bending_loss` and
+    `curvature_loss` default to sobel, the gradient terms to forward_central_backward. -/
+def EverywhereMode (mode : SDMode) : Prop := mode = .fcb ∨ mode = .prewitt ∨ mode = .sobel
+
+example : ∃ m, secondOrderMode none = .fd m ∧ EverywhereMode m := ⟨.sobel, rfl, Or.inr (Or.inr rfl)⟩
+example : ∃ m, firstOrderMode none = .fd m ∧ EverywhereMode m := ⟨.fcb, rfl, Or.inl rfl⟩
+
 /-- bending energy density of a sampled affine flow `A x + t` (any spacing `h ≠ 0`, any dimension):
-    zero at every margin-2 interior point for EVERY finite-difference mode, and at every grid point
-    for forward_central_backward. -/
+    zero at every margin-2 interior point for EVERY finite-difference mode, and at EVERY grid point
+    (sizes ≥ 2) for the default mode (sobel), prewitt and forward_central_backward. -/
 theorem C17_bending_affine_zero (hD : 0 < D) (mode : SDMode) (sz : Fin D → Nat) (A : Fin D → Fin D → K) (h t : Fin D → K)
     (hh : ∀ d, h d ≠ 0) (idx : Idx D) :
     (Interior2 sz idx → bendingField id (fdBackend mode sz h) (affFlow A h t) idx = some 0) ∧
-    ((∀ d, 2 ≤ sz d) → InBoxD sz idx → bendingField id (fdBackend .fcb sz h) (affFlow A h t) idx = some 0) := by
+    (EverywhereMode mode → (∀ d, 2 ≤ sz d) → InBoxD sz idx →
+      bendingField id (fdBackend mode sz h) (affFlow A h t) idx = some 0) := by
   constructor
   · intro hint
     exact bendingField_zero hD _ _ _ _ (fun i a b => second_affine_interior mode sz (A i) h (t i) hh a b idx hint)
-  · intro hsz hb
-    exact bendingField_zero hD _ _ _ _ (fun i a b => second_affine_fcb sz hsz (A i) h (t i) hh a b idx hb)
+  · intro hm hsz hb
+    exact bendingField_zero hD _ _ _ _ (fun i a b => C12_second_affine_zero mode hm sz hsz (A i) h (t i) hh a b idx hb)
 
 /-- the same for the curvature density (unmixed second derivatives). -/
 theorem C17_curvature_affine_zero (mode : SDMode) (sz : Fin D → Nat) (A : Fin D → Fin D → K) (h t : Fin D → K)
     (hh : ∀ d, h d ≠ 0) (idx : Idx D) :
     (Interior2 sz idx → curvatureField id (fdBackend mode sz h) (affFlow A h t) idx = some 0) ∧
-    ((∀ d, 2 ≤ sz d) → InBoxD sz idx → curvatureField id (fdBackend .fcb sz h) (affFlow A h t) idx = some 0) := by
+    (EverywhereMode mode → (∀ d, 2 ≤ sz d) → InBoxD sz idx →
+      curvatureField id (fdBackend mode sz h) (affFlow A h t) idx = some 0) := by
   constructor
   · intro hint
     exact curvatureField_zero _ _ _ _ (fun i j => second_affine_interior mode sz (A i) h (t i) hh j j idx hint)
-  · intro hsz hb
-    exact curvatureField_zero _ _ _ _ (fun i j => second_affine_fcb sz hsz (A i) h (t i) hh j j idx hb)
+  · intro hm hsz hb
+    exact curvatureField_zero _ _ _ _ (fun i j => C12_second_affine_zero mode hm sz hsz (A i) h (t i) hh j j idx hb)
 
-/-- forward_central_backward: the *reduced* bending and curvature losses of a batch of sampled affine
-    flows (per-item matrices, translations, spacing rows) are zero for every reduction:
-    every returned value is 0 ('none': all of them; 'mean' / 'sum': the single value). -/
-theorem C17_affine_zero_reduced (hD : 0 < D) (sz : Fin D → Nat) (hsz : ∀ d, 2 ≤ sz d) (red : Reduction)
+/-- default mode (sobel), prewitt, forward_central_backward: the *reduced* bending and curvature losses
+    of a batch of sampled affine flows (per-item matrices, translations, spacing rows; any size ≥ 2 per axis)
+    are zero for every reduction: every returned value is 0 ('none': all of them; 'mean' / 'sum': the single value). -/
+theorem C17_affine_zero_reduced (hD : 0 < D) (mode : SDMode) (hm : EverywhereMode mode) (sz : Fin D → Nat)
+    (hsz : ∀ d, 2 ≤ sz d) (red : Reduction)
     (items : List ((Fin D → Fin D → K) × (Fin D → K) × (Fin D → K))) (hh : ∀ it ∈ items, ∀ d, it.2.1 d ≠ 0) :
     (∃ r, regFinish red false (.batch (boxPoints sz)
-        (items.map (fun it => bendingField id (fdBackend .fcb sz it.2.1) (affFlow it.1 it.2.1 it.2.2)))) = .ok r ∧ ∀ v ∈ r, v = 0) ∧
+        (items.map (fun it => bendingField id (fdBackend mode sz it.2.1) (affFlow it.1 it.2.1 it.2.2)))) = .ok r ∧ ∀ v ∈ r, v = 0) ∧
     (∃ r, regFinish red true (.batch (boxPoints sz)
-        (items.map (fun it => curvatureField id (fdBackend .fcb sz it.2.1) (affFlow it.1 it.2.1 it.2.2)))) = .ok r ∧ ∀ v ∈ r, v = 0) := by
+        (items.map (fun it => curvatureField id (fdBackend mode sz it.2.1) (affFlow it.1 it.2.1 it.2.2)))) = .ok r ∧ ∀ v ∈ r, v = 0) := by
   have hpos : ∀ d, 0 < sz d := fun d => by have := hsz d; omega
   constructor
   · apply regFinish_zero
     intro f hf idx hidx
     obtain ⟨it, hit, rfl⟩ := List.mem_map.mp hf
-    exact (C17_bending_affine_zero hD .fcb sz it.1 it.2.1 it.2.2 (hh it hit) idx).2 hsz (boxPoints_inBox sz hpos idx hidx)
+    exact (C17_bending_affine_zero hD mode sz it.1 it.2.1 it.2.2 (hh it hit) idx).2 hm hsz (boxPoints_inBox sz hpos idx hidx)
   · apply regFinish_zero
     intro f hf idx hidx
     obtain ⟨it, hit, rfl⟩ := List.mem_map.mp hf
-    exact (C17_curvature_affine_zero .fcb sz it.1 it.2.1 it.2.2 (hh it hit) idx).2 hsz (boxPoints_inBox sz hpos idx hidx)
+    exact (C17_curvature_affine_zero mode sz it.1 it.2.1 it.2.2 (hh it hit) idx).2 hm hsz (boxPoints_inBox sz hpos idx hidx)
 
 example : Interior2 (D := 2) (fun _ => 5) (fun _ => 2) := by intro d; simp
 example : InBoxD (D := 2) (fun _ => 5) (fun _ => 0) := by intro d; simp
 
 /-- adding a sampled affine flow does not change the bending / curvature densities: at margin-2
-    interior points for every mode, at every grid point for forward_central_backward. -/
+    interior points for every mode, at every grid point for sobel (default), prewitt and
+    forward_central_backward. -/
 theorem C17_add_affine_invariant (hD : 0 < D) (mode : SDMode) (sz : Fin D → Nat) (A : Fin D → Fin D → K) (h t : Fin D → K)
     (hh : ∀ d, h d ≠ 0) (u : Fin D → Arr D K) (idx : Idx D)
-    (hpt : Interior2 sz idx ∨ (mode = .fcb ∧ (∀ d, 2 ≤ sz d) ∧ InBoxD sz idx)) :
+    (hpt : Interior2 sz idx ∨ (EverywhereMode mode ∧ (∀ d, 2 ≤ sz d) ∧ InBoxD sz idx)) :
     bendingField id (fdBackend mode sz h) (fun i x => u i x + affFlow A h t i x) idx
       = bendingField id (fdBackend mode sz h) u idx ∧
     curvatureField id (fdBackend mode sz h) (fun i x => u i x + affFlow A h t i x) idx
       = curvatureField id (fdBackend mode sz h) u idx := by
   have hz : ∀ (i a b : Fin D), sdStep mode sz h b (sdStep mode sz h a (affField (A i) h (t i))) idx = 0 := by
     intro i a b
-    rcases hpt with hint | ⟨rfl, hsz, hb⟩
+    rcases hpt with hint | ⟨hm, hsz, hb⟩
     · exact second_affine_interior mode sz (A i) h (t i) hh a b idx hint
-    · exact second_affine_fcb sz hsz (A i) h (t i) hh a b idx hb
+    · exact C12_second_affine_zero mode hm sz hsz (A i) h (t i) hh a b idx hb
   have hH : ∀ (i a b : Fin D), Hval id (fdBackend mode sz h) (fun i x => u i x + affFlow A h t i x) idx i [a, b]
       = 1 * Hval id (fdBackend mode sz h) u idx i [a, b] := by
     intro i a b
@@ -178,8 +195,9 @@ theorem C17_translation_zero_reduced [LT K] [DecidableRel (α := K) (· < ·)] [
 
 /-! ## analytic values on affine fields -/
 
-/-- at every point where the scheme is exact (`ExactAt`: every grid point for forward_central_backward,
-    margin 1 for central / prewitt / sobel, one-sided margins for forward / backward) the densities of a
+/-- at every point where the scheme is exact (`ExactAt`: EVERY grid point for forward_central_backward and —
+    since the repair of F-17d — prewitt and sobel; margin 1 for central, one-sided margins for forward /
+    backward) the densities of a
     sampled affine flow are the closed forms in its Jacobian `A`: `gradPt p q A` (diffusion: `Σ A_ij²`,
     before the final `·0.5`), `elasticityPt λ μ A`, and the squared accumulated diagonal for divergence. -/
 theorem C17_affine_values [LT K] [DecidableRel (α := K) (· < ·)] [DecidableEq K] (hD : 0 < D) (mode : SDMode)
@@ -240,7 +258,44 @@ theorem C17_affine_values_23 [DecidableEq K] :
       Fin.sum_univ_three, Matrix.diag, toM_apply]
     push_cast; ring
 
-example : ExactAt (D := 2) .sobel (fun _ => 5) (fun _ => 1) := by intro a; simp
+example : ExactAt (D := 2) .sobel (fun _ => 5) (fun _ => 0) := by intro a; simp
+
+theorem exactAt_everywhere (mode : SDMode) (hm : EverywhereMode mode) (sz : Fin D → Nat) (hsz : ∀ d, 2 ≤ sz d)
+    (idx : Idx D) (hb : InBoxD sz idx) : ExactAt mode sz idx := by
+  rcases hm with rfl | rfl | rfl <;> exact fun a => ⟨(hb a).1, (hb a).2, hsz a⟩
+
+/-- forward_central_backward (the default of the gradient terms), prewitt and sobel: diffusion, total
+    variation, the general gradient loss, elasticity and divergence of a sampled affine flow take their
+    analytic values at EVERY grid point (any size ≥ 2 per axis, any spacing), hence so do the reduced losses:
+    'none' returns the analytic value at every point (with the final `·0.5` where the code has it). -/
+theorem C17_affine_values_everywhere [LT K] [DecidableRel (α := K) (· < ·)] [DecidableEq K] (hD : 0 < D) (mode : SDMode)
+    (hm : EverywhereMode mode) (sz : Fin D → Nat) (hsz : ∀ d, 2 ≤ sz d) (A : Fin D → Fin D → K) (h t : Fin D → K)
+    (hh : ∀ d, h d ≠ 0) (p : PPow K) (q : QPow K) (lambd mu : K) :
+    (∀ idx, InBoxD sz idx →
+      gradField id (fdBackend mode sz h) p q (affFlow A h t) idx = gradPt p q A ∧
+      gradField id (fdBackend mode sz h) (.nat 2) (.nat 1) (affFlow A h t) idx
+        = some (((List.finRange D).map (fun j => ((List.finRange D).map (fun c => A c j * A c j)).sum)).sum) ∧
+      elasticityField id (fdBackend mode sz h) lambd mu (affFlow A h t) idx = some (elasticityPt lambd mu A) ∧
+      divergenceField id (fdBackend mode sz h) (affFlow A h t) idx
+        = some (((dedupFirst (divergenceKeys D)).map (fun key => A key.1 key.1)).sum
+              * ((dedupFirst (divergenceKeys D)).map (fun key => A key.1 key.1)).sum)) ∧
+    (∀ (half : Bool), regFinish .none half (.batch (boxPoints sz) [elasticityField id (fdBackend mode sz h) lambd mu (affFlow A h t)])
+      = .ok ((boxPoints sz).map (fun _ => elasticityPt lambd mu A * (if half then 1 / 2 else 1)))) := by
+  have hpt : ∀ idx, InBoxD sz idx → _ := fun idx hb =>
+    C17_affine_values hD mode sz A h t hh idx (exactAt_everywhere mode hm sz hsz idx hb) p q lambd mu
+  refine ⟨hpt, ?_⟩
+  intro half
+  have hpos : ∀ d, 0 < sz d := fun d => by have := hsz d; omega
+  have hv : ([elasticityField id (fdBackend mode sz h) lambd mu (affFlow A h t)].flatMap (fun f => (boxPoints sz).map f)).mapM id
+      = some ((boxPoints sz).map (fun _ => elasticityPt lambd mu A)) := by
+    apply mapM_id_some
+    simp only [List.flatMap_cons, List.flatMap_nil, List.append_nil, List.map_map]
+    apply List.map_congr_left
+    intro idx hidx
+    exact (hpt idx (boxPoints_inBox sz hpos idx hidx)).2.2.1
+  unfold regFinish
+  simp only [hv, reduceVals_none]
+  cases half <;> simp
 
 /-! ## linear transformations, reductions -/
 
@@ -539,12 +594,21 @@ theorem C17_bspline_bending_analytic (hD : 0 < D) (stride : Fin D → Nat) (wts 
       intro k; ring
     simp only [Nat.cast_zero, Nat.cast_one, Nat.cast_ofNat, e]
 
-/-- FULL statement behind F-17d: the default-mode (sobel) bending density of a sampled affine flow is
-    zero at every grid point (which is what a zero reduced loss needs). -/
-def C17_bending_default_affine_Statement (K : Type) [Field K] : Prop :=
+/-- FULL statements behind the remaining findings F-17d' / F-17d'' (I-3: C17 does not carve out boundary
+    points): for `mode`, the bending and curvature densities of a sampled affine flow vanish, and the
+    diffusion density is the analytic `Σ A_ij²`, at EVERY grid point (sizes ≥ 5). -/
+def C17_bending_affine_everywhere_Statement (mode : SDMode) (K : Type) [Field K] : Prop :=
   ∀ (sz : Fin 2 → Nat) (A : Fin 2 → Fin 2 → K) (h t : Fin 2 → K), (∀ d, 5 ≤ sz d) → (∀ d, h d ≠ 0) →
-    ∀ idx, InBoxD sz idx → bendingField id (fdBackend .sobel sz h) (affFlow A h t) idx = some 0
+    ∀ idx, InBoxD sz idx → bendingField id (fdBackend mode sz h) (affFlow A h t) idx = some 0
 
+def C17_curvature_affine_everywhere_Statement (mode : SDMode) (K : Type) [Field K] : Prop :=
+  ∀ (sz : Fin 2 → Nat) (A : Fin 2 → Fin 2 → K) (h t : Fin 2 → K), (∀ d, 5 ≤ sz d) → (∀ d, h d ≠ 0) →
+    ∀ idx, InBoxD sz idx → curvatureField id (fdBackend mode sz h) (affFlow A h t) idx = some 0
+
+def C17_diffusion_affine_everywhere_Statement (mode : SDMode) (K : Type) [Field K] [LT K] [DecidableRel (α := K) (· < ·)] : Prop :=
+  ∀ (sz : Fin 2 → Nat) (A : Fin 2 → Fin 2 → K) (h t : Fin 2 → K), (∀ d, 5 ≤ sz d) → (∀ d, h d ≠ 0) →
+    ∀ idx, InBoxD sz idx → gradField id (fdBackend mode sz h) (.nat 2) (.nat 1) (affFlow A h t) idx
+      = some (A 0 0 * A 0 0 + A 1 0 * A 1 0 + (A 0 1 * A 0 1 + A 1 1 * A 1 1))
 
 /-- witness field `u = (x + y, 0)` on a 5×5 grid with unit spacing. -/
 def f17dA : Fin 2 → Fin 2 → ℚ := fun i _ => if i = 0 then 1 else 0
@@ -554,26 +618,97 @@ theorem f17dU_eq : affFlow f17dA (fun _ => 1) (fun _ => 0) = f17dU := by
   funext i idx
   fin_cases i <;> simp [affFlow, affField, f17dA, f17dU, Fin.sum_univ_two]
 
--- REBASE F-17d (C12 builder): pending C17 re-base
--- (`sdStep` now has the replicate-padded prewitt / sobel averaging of the repaired code; the refutation below is
---  no longer true and is to be replaced by the positive theorem — `FD.sdStep_const_slab` /
---  `C12_second_affine_zero` give second derivatives of affine fields = 0 at every grid point for sobel.)
-/-
-/-! F-17d: the statement fails — at the corner sample (0, 0) of a 5×5 grid the default-mode bending
-    density of the affine field `(x + y, 0)` is 9/128 (the averaging kernel is zero-padded), so the
-    reduced default-mode bending energy of an affine field is not zero.  (`secondOrderMode none = .fd .sobel`.)
-    What holds is `C17_bending_affine_zero`: the margin-2 interior, and every point for
-    forward_central_backward. -/
-theorem C17_bending_default_affine_refuted : ¬ C17_bending_default_affine_Statement ℚ := by
-  intro h
-  have hv := h (fun _ => 5) f17dA (fun _ => 1) (fun _ => 0) (fun _ => le_rfl) (fun _ => one_ne_zero) (fun _ => 0)
-    (fun _ => ⟨le_rfl, by norm_num⟩)
-  rw [f17dU_eq] at hv
-  have : bendingField id (fdBackend .sobel (fun _ => 5) (fun _ => (1 : ℚ))) f17dU (fun _ => 0) ≠ some 0 := by
-    decide +kernel
-  exact this hv
+/-- grid point `(x, 0)` of the 5×5 grid. -/
+def f17dP (x : Int) : Idx 2 := fun d => if d = 0 then x else 0
 
--/
+theorem f17dP_inBox (x : Int) (h0 : 0 ≤ x) (h1 : x < 5) : InBoxD (D := 2) (fun _ => 5) (f17dP x) := by
+  intro d; fin_cases d <;> simp [f17dP, h0, h1]
+
+/-- F-17d' (not repaired; inherent to the explicitly one-sided / central replicate-padded schemes): the
+    statements fail for `forward`, `backward` and `central`.  Witness `u = (x + y, 0)`, 5×5, unit spacing:
+    in the padded layer the first derivative is 0 (forward: last column; backward: first column) or halved
+    (central), so its difference — a second derivative — is not 0 next to it (kernel evaluation).
+    What holds: `C17_bending_affine_zero` / `C17_curvature_affine_zero` (margin-2 interior for these modes,
+    every point for the default mode, prewitt and forward_central_backward). -/
+theorem C17_bending_forward_affine_refuted :
+    (¬ C17_bending_affine_everywhere_Statement .forward ℚ ∧ ¬ C17_bending_affine_everywhere_Statement .backward ℚ ∧
+      ¬ C17_bending_affine_everywhere_Statement .central ℚ) ∧
+    (¬ C17_curvature_affine_everywhere_Statement .forward ℚ ∧ ¬ C17_curvature_affine_everywhere_Statement .backward ℚ ∧
+      ¬ C17_curvature_affine_everywhere_Statement .central ℚ) := by
+  refine ⟨⟨?_, ?_, ?_⟩, ⟨?_, ?_, ?_⟩⟩
+  · intro h
+    have hv := h (fun _ => 5) f17dA (fun _ => 1) (fun _ => 0) (fun _ => le_rfl) (fun _ => one_ne_zero) (f17dP 3)
+      (f17dP_inBox 3 (by norm_num) (by norm_num))
+    rw [f17dU_eq] at hv
+    have : bendingField id (fdBackend .forward (fun _ => 5) (fun _ => (1 : ℚ))) f17dU (f17dP 3) ≠ some 0 := by decide +kernel
+    exact this hv
+  · intro h
+    have hv := h (fun _ => 5) f17dA (fun _ => 1) (fun _ => 0) (fun _ => le_rfl) (fun _ => one_ne_zero) (f17dP 1)
+      (f17dP_inBox 1 (by norm_num) (by norm_num))
+    rw [f17dU_eq] at hv
+    have : bendingField id (fdBackend .backward (fun _ => 5) (fun _ => (1 : ℚ))) f17dU (f17dP 1) ≠ some 0 := by decide +kernel
+    exact this hv
+  · intro h
+    have hv := h (fun _ => 5) f17dA (fun _ => 1) (fun _ => 0) (fun _ => le_rfl) (fun _ => one_ne_zero) (f17dP 1)
+      (f17dP_inBox 1 (by norm_num) (by norm_num))
+    rw [f17dU_eq] at hv
+    have : bendingField id (fdBackend .central (fun _ => 5) (fun _ => (1 : ℚ))) f17dU (f17dP 1) ≠ some 0 := by decide +kernel
+    exact this hv
+  · intro h
+    have hv := h (fun _ => 5) f17dA (fun _ => 1) (fun _ => 0) (fun _ => le_rfl) (fun _ => one_ne_zero) (f17dP 3)
+      (f17dP_inBox 3 (by norm_num) (by norm_num))
+    rw [f17dU_eq] at hv
+    have : curvatureField id (fdBackend .forward (fun _ => 5) (fun _ => (1 : ℚ))) f17dU (f17dP 3) ≠ some 0 := by decide +kernel
+    exact this hv
+  · intro h
+    have hv := h (fun _ => 5) f17dA (fun _ => 1) (fun _ => 0) (fun _ => le_rfl) (fun _ => one_ne_zero) (f17dP 1)
+      (f17dP_inBox 1 (by norm_num) (by norm_num))
+    rw [f17dU_eq] at hv
+    have : curvatureField id (fdBackend .backward (fun _ => 5) (fun _ => (1 : ℚ))) f17dU (f17dP 1) ≠ some 0 := by decide +kernel
+    exact this hv
+  · intro h
+    have hv := h (fun _ => 5) f17dA (fun _ => 1) (fun _ => 0) (fun _ => le_rfl) (fun _ => one_ne_zero) (f17dP 1)
+      (f17dP_inBox 1 (by norm_num) (by norm_num))
+    rw [f17dU_eq] at hv
+    have : curvatureField id (fdBackend .central (fun _ => 5) (fun _ => (1 : ℚ))) f17dU (f17dP 1) ≠ some 0 := by decide +kernel
+    exact this hv
+
+/-- F-17d'' (not repaired): with `forward`, `backward`, `central` the diffusion density of the affine field
+    `(x + y, 0)` (analytic value `Σ A_ij² = 2`) is NOT the analytic value in the padded layer (it is 1 resp.
+    5/4), so the reduced loss is not the analytic one.  What holds: `C17_affine_values` at `ExactAt` points
+    (the respective margins), `C17_affine_values_everywhere` for forward_central_backward / prewitt / sobel.
+    (mode='gaussian', F-17i, is not modelled: documented by the oracles only.) -/
+theorem C17_grad_forward_affine_refuted :
+    ¬ C17_diffusion_affine_everywhere_Statement .forward ℚ ∧ ¬ C17_diffusion_affine_everywhere_Statement .backward ℚ ∧
+    ¬ C17_diffusion_affine_everywhere_Statement .central ℚ := by
+  have hval : some (f17dA 0 0 * f17dA 0 0 + f17dA 1 0 * f17dA 1 0 + (f17dA 0 1 * f17dA 0 1 + f17dA 1 1 * f17dA 1 1)) = some (2 : ℚ) := by
+    simp [f17dA]; norm_num
+  refine ⟨?_, ?_, ?_⟩
+  · intro h
+    have hv := h (fun _ => 5) f17dA (fun _ => 1) (fun _ => 0) (fun _ => le_rfl) (fun _ => one_ne_zero) (f17dP 4)
+      (f17dP_inBox 4 (by norm_num) (by norm_num))
+    rw [f17dU_eq, hval] at hv
+    have : gradField id (fdBackend .forward (fun _ => 5) (fun _ => (1 : ℚ))) (.nat 2) (.nat 1) f17dU (f17dP 4) ≠ some 2 := by
+      decide +kernel
+    exact this hv
+  · intro h
+    have hv := h (fun _ => 5) f17dA (fun _ => 1) (fun _ => 0) (fun _ => le_rfl) (fun _ => one_ne_zero) (f17dP 0)
+      (f17dP_inBox 0 (by norm_num) (by norm_num))
+    rw [f17dU_eq, hval] at hv
+    have : gradField id (fdBackend .backward (fun _ => 5) (fun _ => (1 : ℚ))) (.nat 2) (.nat 1) f17dU (f17dP 0) ≠ some 2 := by
+      decide +kernel
+    exact this hv
+  · intro h
+    have hv := h (fun _ => 5) f17dA (fun _ => 1) (fun _ => 0) (fun _ => le_rfl) (fun _ => one_ne_zero) (f17dP 0)
+      (f17dP_inBox 0 (by norm_num) (by norm_num))
+    rw [f17dU_eq, hval] at hv
+    have : gradField id (fdBackend .central (fun _ => 5) (fun _ => (1 : ℚ))) (.nat 2) (.nat 1) f17dU (f17dP 0) ≠ some 2 := by
+      decide +kernel
+    exact this hv
+
+/-- the default mode is not among them any more (F-17d repaired): same witness, corner sample. -/
+example : bendingField id (fdBackend .sobel (fun _ => 5) (fun _ => (1 : ℚ))) f17dU (f17dP 0) = some 0 := by
+  decide +kernel
 
 example : secondOrderMode none = .fd .sobel := rfl
 
